@@ -114,6 +114,14 @@ func Run(sc Scenario, leak bool) Result {
 				r.Subscribe(false)
 			}
 			ok = wait() && r.Quiesce("joinburst")
+		case "deadcalls":
+			r.DeadCalls(st.I, st.Paused)
+		case "blockedpub":
+			// one message while nobody reads: the dispatch is parked on its first send
+			res.NMsgs += nmsgs(st.Pubs)
+			r.Inflight = true
+			wait := r.Burst(st.Pubs)
+			ok = wait() && r.WaitLoopIdle() && r.WaitWorkerInSend(1)
 		case "pause":
 			r.Pause(r.Subs[st.I])
 		case "resume":
@@ -280,6 +288,9 @@ func GenPhased(r *kit.Rand, id int, c Cfg, big bool) Scenario {
 					sc.Steps = append(sc.Steps, Step{Op: "unsub2", I: gone[r.Intn(len(gone))]})
 				}
 			}
+		case 4:
+			// API calls whose context is over (or ends during the call): no effect allowed
+			sc.Steps = append(sc.Steps, Step{Op: "deadcalls", I: r.Range(2, 8), Paused: r.Bool()})
 		case 3:
 			// Unsubscribe of channels the broker never handed out
 			for j, n := 0, r.Range(1, len(live)+1); j < n && nsub < 8; j++ {
@@ -354,5 +365,51 @@ func GenFiltered(id int, backend string, inF, outF, w int, par bool) Scenario {
 		b = append(b, 12+i)
 	}
 	sc.Steps = []Step{{Op: "sub"}, {Op: "sub"}, {Op: "burst", Pubs: [][]int{a}}, {Op: "pburst", Pubs: [][]int{b}}}
+	return sc
+}
+
+// GenDeadCalls: normal traffic, then a series of API calls with dead / expiring
+// contexts on the idle live broker, then more traffic: every real subscriber
+// still gets everything and the broker does not stall.
+func GenDeadCalls(r *kit.Rand, id int, c Cfg) Scenario {
+	sc := Scenario{ID: id, Kind: "dead-ctx-calls", Cfg: c}
+	g := &idgen{}
+	for i, n := 0, r.Range(1, 3); i < n; i++ {
+		sc.Steps = append(sc.Steps, Step{Op: "sub"})
+	}
+	sc.Steps = append(sc.Steps, Step{Op: "burst", Pubs: g.pubs(r, 2, 4)},
+		Step{Op: "deadcalls", I: r.Range(6, 12)},
+		Step{Op: "burst", Pubs: g.pubs(r, 2, 6)},
+		Step{Op: "deadcalls", I: r.Range(4, 8), Paused: true},
+		Step{Op: "pburst", Pubs: g.pubs(r, 2, 6)})
+	return sc
+}
+
+// GenMassUnsub: many subscribers, one message published while nobody reads (the
+// sequential dispatch is parked on its first send), most of them unsubscribe,
+// then everybody drains: the ones that stayed must have the message.
+func GenMassUnsub(r *kit.Rand, id int, backend string, w int) Scenario {
+	sc := Scenario{ID: id, Kind: "mass-unsub", Cfg: Cfg{Backend: backend, W: w}}
+	n := r.Range(6, 10)
+	for i := 0; i < n; i++ {
+		sc.Steps = append(sc.Steps, Step{Op: "sub", Paused: true})
+	}
+	sc.Steps = append(sc.Steps, Step{Op: "blockedpub", Pubs: [][]int{{1}}})
+	stay := r.Range(1, 2)
+	perm := make([]int, n)
+	for i := range perm {
+		perm[i] = i
+	}
+	for i := n - 1; i > 0; i-- {
+		j := r.Intn(i + 1)
+		perm[i], perm[j] = perm[j], perm[i]
+	}
+	for _, i := range perm[stay:] {
+		sc.Steps = append(sc.Steps, Step{Op: "unsub", I: i})
+	}
+	for i := 0; i < n; i++ {
+		sc.Steps = append(sc.Steps, Step{Op: "resume", I: i})
+	}
+	sc.Steps = append(sc.Steps, Step{Op: "burst", Pubs: [][]int{{2, 3}}})
 	return sc
 }
